@@ -213,5 +213,51 @@ impl VpSqliteHandler {
 //%end
 }
 
+// ---- the CLIENT side: TSigVerifier::verify (rr/tsig.rs, whole function). C13: "the reply is then signed so that the client-side
+//      verifier accepts it and rejects any modified reply": a reply is handed to the caller only if TSigner::verify_message_byte
+//      accepted THESE bytes chained to the MAC of the previous message (the request's MAC for the first reply), its time does not
+//      go back, and the time the request was sent lies in its fudge window; a rejected reply leaves the chain state untouched ----
+pub struct VpClientSigner { pub vp: u64 }
+pub uninterp spec fn reply_mac_ok(k: VpClientSigner, bytes: Seq<u8>, prev: Seq<u8>, first: bool) -> bool;
+impl VpClientSigner {
+    #[verifier::external_body]
+    pub fn verify_message_byte(&self, message: &[u8], previous_hash: Option<&[u8]>, first_message: bool) -> (r: Result<(Vec<u8>, u64, Range<u64>), DnsSecError>)
+        ensures r is Ok ==> (previous_hash matches Some(p) && reply_mac_ok(*self, message@, p@, first_message))
+    { unimplemented!() }
+}
+impl DnsSecError { #[verifier::external_body] pub fn to_string(&self) -> (r: VpText) { unimplemented!() } }
+pub struct VpText { pub vp: u64 }
+pub struct ProtoError { pub vp: u64 }
+impl ProtoError {
+    #[verifier::external_body] pub fn from<T>(t: T) -> (r: ProtoError) { unimplemented!() }
+}
+pub type ProtoResult<T> = Result<T, ProtoError>;
+pub struct DnsResponse { pub bytes: Vec<u8> }
+impl DnsResponse {
+    // DnsResponse::from_buffer: parses the message; Ok keeps the buffer it was given
+    #[verifier::external_body] pub fn from_buffer(buffer: Vec<u8>) -> (r: ProtoResult<DnsResponse>) ensures r matches Ok(d) ==> d.bytes@ == buffer@ { unimplemented!() }
+}
+#[verifier::external_body] pub fn vp_to_vec(s: &[u8]) -> (r: Vec<u8>) ensures r@ == s@ { s.to_vec() }
+pub struct TSigVerifier { pub signer: VpClientSigner, pub previous_signature: Vec<u8>, pub remote_time: u64, pub request_time: u64 }
+impl TSigVerifier {
+//%fn crates/proto/src/rr/tsig.rs :: impl TSigVerifier :: verify
+//%sub1 "range.contains(&self.request_time)" => "vp_range_contains(&range, &self.request_time)" # R-shim: core::ops::Range::contains
+//%sub1 "response_bytes.to_vec()" => "vp_to_vec(response_bytes)" # R-shim: slice::to_vec
+//%closure "|err|"
+|err: DnsSecError| -> (e: ProtoError)
+//%mutant unverified_error_reply_accepted "if rt >= self.remote_time" => "if response_bytes.len() == 17 || rt >= self.remote_time"
+//%mutant time_may_go_back "rt >= self.remote_time &&" => ""
+//%contract
+        ensures
+            r matches Ok(resp) ==> (resp.bytes@ == response_bytes@
+                && reply_mac_ok(old(self).signer, response_bytes@, old(self).previous_signature@, old(self).remote_time == 0)
+                && final(self).remote_time >= old(self).remote_time),
+            // the chain state moves only for a reply whose MAC verified
+            (final(self).previous_signature@ != old(self).previous_signature@ || final(self).remote_time != old(self).remote_time)
+                ==> (reply_mac_ok(old(self).signer, response_bytes@, old(self).previous_signature@, old(self).remote_time == 0) && final(self).remote_time >= old(self).remote_time),
+            final(self).signer == old(self).signer, final(self).request_time == old(self).request_time,
+//%end
+}
+
 } // verus!
 fn main() {}
